@@ -29,7 +29,7 @@ MANIFEST = {
 }
 MODULES = ["PrimaiteModel.Props.C19", "PrimaiteModel.Props.C19Sched"]
 EXE = "drv_c19"
-KINDS = ["periodic", "prob", "tap1", "tap3"]
+KINDS = ["periodic", "prob", "tap1", "tap3", "rand"]
 
 
 def _diff_case(case: dict):
@@ -103,7 +103,8 @@ def run(ctx: Ctx):
         rec = json.loads(f.read_text())
         if "case" in rec:
             cases.append(("corpus:" + f.name, rec["case"]))
-    per_kind = {"periodic": ctx.scale(250, 4000), "prob": ctx.scale(250, 4000), "tap1": ctx.scale(300, 5000), "tap3": ctx.scale(300, 5000)}
+    per_kind = {"periodic": ctx.scale(250, 4000), "prob": ctx.scale(250, 4000), "tap1": ctx.scale(300, 5000), "tap3": ctx.scale(300, 5000),
+                "rand": ctx.scale(60, 600)}
     for kind in KINDS:
         rng = ctx.rng.fork("agents:" + kind)
         for k in range(per_kind[kind]):
@@ -130,6 +131,11 @@ def run(ctx: Ctx):
         _histogram(ctx, kind, case, impl)
         ctx.case(case, _nontrivial(kind, case, impl))
         for p in problems:
+            if p.startswith("params: "):
+                # property oracle on the implementation alone: every parameter of an action comes from the settings
+                ctx.violation({"kind": "oracle", "agent": case["agent"], "what": "action-parameters-not-from-settings"},
+                              f"{case['agent']} ({name}): {p[8:]}", {"case": case, "from": name})
+                continue
             rig_ok = False
             ctx.oblige(f"rig:draw-ranges:{name}", "correspondence", False, p)
         a, b = rig.normalise(case, impl, model)
@@ -176,6 +182,8 @@ def _nontrivial(kind: str, case: dict, impl: List[str]) -> bool:
         return sum(1 for l in impl if l.startswith("exec")) >= 2 or any(l.startswith("raised") for l in impl)
     if kind == "prob":
         return any(w == 0 for _, w in case["table"]) and any(l.startswith("chose") for l in impl)
+    if kind == "rand":
+        return len({l for l in impl}) > 1 or any(l.startswith("raised") for l in impl)
     stages = {l.split("|")[1].split()[0] for l in impl if "|" in l}
     return len(stages - {"NOT_STARTED", "DOWNLOAD", "RECONNAISSANCE"}) > 0 or any(l.startswith("raised") for l in impl)
 
